@@ -26,6 +26,9 @@ pub type WorldRef = Rc<RefCell<World>>;
 pub enum FaultKind {
     /// SPI transaction `at` of the call fails; the chip never sees it (bus error before NSS)
     Spi,
+    /// SPI transaction `at` of the call is clocked through the chip (with its side effects, such as the FIFO pointer
+    /// of an SX127x advancing) and then reported to the driver as failed; the bytes read are lost
+    SpiLate,
     /// `wait_on_busy` number `at` of the call returns Err(Busy) immediately
     Busy,
     /// `await_irq` number `at` of the call returns Err(Irq)
@@ -173,6 +176,7 @@ impl World {
                 self.env.clean = false;
                 self.env.bump(match kind {
                     FaultKind::Spi => "fault.spi",
+                    FaultKind::SpiLate => "fault.spi-after-delivery",
                     FaultKind::Busy => "fault.busy",
                     FaultKind::Irq => "fault.irq",
                 });
@@ -223,6 +227,10 @@ impl World {
             Chip::C126(c) => c.transaction(&mut self.env, &cmd, nread),
             Chip::C127(c) => c.transaction(&mut self.env, &cmd, nread),
         };
+        if self.fault_hits(FaultKind::SpiLate, idx) {
+            self.env.tr(|| format!("spi#{idx} {} -> FAULT (delivered to the chip, reported as failed)", hex(&cmd)));
+            return Err(ErrorKind::Other);
+        }
         self.env.tr(|| format!("spi#{idx} {} -> {}", hex(&cmd), hex(&resp)));
         // ~1 us per byte on the wire
         self.env.now_us += (cmd.len() + nread) as u64;
